@@ -84,6 +84,8 @@ func (t *Trace) Emit(ev M) {
 	t.mu.Lock()
 	t.w.Write(data)
 	t.w.WriteByte('\n')
+	/* flushed per line: a crashing process leaves everything it did on disk */
+	t.w.Flush()
 	t.N++
 	t.mu.Unlock()
 }
